@@ -28,6 +28,11 @@ job('sstream', 'ss.to_string', 'h_ss_to_string', P, expect=[r'ST_string_stream_t
 for sel, nm in enumerate(['wchar', 'utf16', 'utf32']):
     job('sstream_mod', 'ss.shl_' + nm, 'h_ss_wide', P + ['C18'], defines=['WIDE_SEL=%d' % sel], expect=[r'ST_string_stream_wide\.postcondition\.[1-5]'])
     job('sstream_mod', 'ss.shl_%s.fault' % nm, 'h_ss_wide', ['C19'], tier='thorough', defines=['WIDE_SEL=%d' % sel, 'FAULT'], expect=[r'ST_string_stream_wide\.postcondition\.5'])
+INTS = ['ST_string_stream_op_shl__%s' % a for a in ('i', 'u', 'l', 'ul', 'll', 'ull')]
+FSTUBS = ['ST_uint_formatter_%s_format' % t for t in ('uint', 'ulong', 'ulong_long')]
+unit('sstream_int', functions=[f for f in CORE if f != 'ST_string_stream_expand_buffer'] + INTS, stubs=STUBS + ['ST_string_stream_expand_buffer'] + FSTUBS, spec=None, harness='harness/sstream.c')
+for sel, nm in enumerate(['int', 'uint', 'long', 'ulong', 'long_long', 'ulong_long']):
+    job('sstream_int', 'ss.shl_' + nm, 'h_ss_int', P + ['C12'], defines=['SS_INT', 'INT_SEL=%d' % sel], expect=[r'ST_string_stream_int\.postcondition\.[1-5]'])
 PROPS['C16'] = dict(level='proof',
     explanation='every string_stream operation (constructors, destructor, append, append_char, growth by doubling, truncate, erase, both moves, to_string, text insertion in every width) is proved for symbolic sizes and capacities over the whole range to preserve the representation invariant (size <= capacity, in-object vs. exclusively owned heap storage), to keep every byte appended earlier (observed at an arbitrary index) and to add exactly the given bytes at the end, with exact heap-block accounting; a moved-from stream is a valid empty stream; histories follow by induction over operations',
     trusted_base=['contracts/prelude.h: st_new_char/st_delete (malloc/free model with live-block counter), char_traits copy/move/assign/length stubs',
